@@ -1,11 +1,467 @@
 package exec
 
-import "gosym/smt"
+// Elliptic-curve model: the group, not the field (DESIGN §3.4).
+// secp256k1 ≅ Z_q (identity = the non-point (0,0)); edwards25519 ≅ Z_q × Z_8
+// (identity = (0,1)). Coordinates of a point with discrete log d (and torsion
+// component tau) are the uninterpreted X_c(d,tau), Y_c(d,tau). All-concrete
+// operations are evaluated with the real libraries.
 
-// pointRec records a coordinate pair known to be a curve point with discrete log d.
+import (
+	"crypto/elliptic"
+	"fmt"
+	"go/types"
+	"math/big"
+
+	"github.com/btcsuite/btcd/btcec/v2"
+	"github.com/decred/dcrd/dcrec/edwards/v2"
+
+	"gosym/smt"
+)
+
+type curveObj struct {
+	name   string
+	real   elliptic.Curve
+	N, P   *big.Int
+	cof    int64
+	typ    types.Type // dynamic type of the interface value
+	params *value
+}
+
+// pointRec records a coordinate pair known to be a curve point.
 type pointRec struct {
 	curve string
 	x, y  *smt.Term
 	d     *smt.Term
 	tau   *smt.Term
+}
+
+const (
+	secpRecv = "(*github.com/decred/dcrd/dcrec/secp256k1/v4.KoblitzCurve)"
+	edRecv   = "(*github.com/decred/dcrd/dcrec/edwards/v2.TwistedEdwardsCurve)"
+)
+
+func (i *interpreter) curve(name string) value {
+	p := i.p
+	key := "curve:" + name
+	if v, ok := p.ghost[key]; ok {
+		return v
+	}
+	var co *curveObj
+	switch name {
+	case "secp256k1":
+		sp := i.eng.byPath["github.com/decred/dcrd/dcrec/secp256k1/v4"]
+		if sp == nil {
+			panic(unsupported("secp256k1 package not loaded"))
+		}
+		rc := btcec.S256()
+		co = &curveObj{name: name, real: rc, N: rc.Params().N, P: rc.Params().P, cof: 1, typ: types.NewPointer(sp.Type("KoblitzCurve").Type())}
+	case "ed25519":
+		ep := i.eng.byPath["github.com/decred/dcrd/dcrec/edwards/v2"]
+		if ep == nil {
+			panic(unsupported("edwards package not loaded"))
+		}
+		rc := edwards.Edwards()
+		co = &curveObj{name: name, real: rc, N: rc.Params().N, P: rc.Params().P, cof: 8, typ: types.NewPointer(ep.Type("TwistedEdwardsCurve").Type())}
+	}
+	// the pointee has the real struct layout (tss-lib reads the embedded
+	// *elliptic.CurveParams statically); field 0 is the parameter block, the last
+	// slot carries the model object
+	rp := co.real.Params()
+	var ps value = structure{
+		newBigC(rp.P), newBigC(rp.N), newBigC(rp.B), newBigC(rp.Gx), newBigC(rp.Gy), rp.BitSize, rp.Name,
+	}
+	co.params = &ps
+	st := zero(mustDeref(co.typ)).(structure)
+	st[0] = co.params
+	var cv value = st
+	ptr := &cv
+	p.ghost[key] = ptr
+	if p.curveTab == nil {
+		p.curveTab = map[*value]*curveObj{}
+	}
+	p.curveTab[ptr] = co
+	return ptr
+}
+
+func (p *pathRun) curveOf(v value) *curveObj {
+	co := p.curveTab[v.(*value)]
+	if co == nil {
+		panic(unsupported("curve value is not a modelled curve"))
+	}
+	return co
+}
+
+func init() {
+	intrinsics["github.com/btcsuite/btcd/btcec/v2.S256"] = func(fr *frame, a []value) value { return fr.i.curve("secp256k1") }
+	intrinsics["github.com/decred/dcrd/dcrec/secp256k1/v4.S256"] = func(fr *frame, a []value) value { return fr.i.curve("secp256k1") }
+	intrinsics["github.com/decred/dcrd/dcrec/edwards/v2.Edwards"] = func(fr *frame, a []value) value { return fr.i.curve("ed25519") }
+	intrinsics["(*crypto/elliptic.CurveParams).Params"] = func(fr *frame, a []value) value { return a[0] }
+	intrinsics["(github.com/decred/dcrd/dcrec/edwards/v2.TwistedEdwardsCurve).Params"] = func(fr *frame, a []value) value {
+		return a[0].(structure)[0]
+	}
+	for _, recv := range []string{secpRecv, edRecv} {
+		intrinsics[recv+".Params"] = curveParams
+		intrinsics[recv+".IsOnCurve"] = curveIsOnCurve
+		intrinsics[recv+".Add"] = curveAdd
+		intrinsics[recv+".Double"] = func(fr *frame, a []value) value {
+			return curveAdd(fr, []value{a[0], a[1], a[2], a[1], a[2]})
+		}
+		intrinsics[recv+".ScalarMult"] = curveScalarMult
+		intrinsics[recv+".ScalarBaseMult"] = curveScalarBaseMult
+	}
+}
+
+func curveParams(fr *frame, a []value) value {
+	return fr.i.p.curveOf(a[0]).params
+}
+
+// ---- point terms ----
+
+func (p *pathRun) coordTerms(co *curveObj, d, tau *smt.Term) (x, y *smt.Term) {
+	c := p.ctx
+	x = c.App("X_"+co.name, smt.Int, d, tau)
+	y = c.App("Y_"+co.name, smt.Int, d, tau)
+	key := fmt.Sprintf("pt:%s:%d:%d", co.name, d.ID, tau.ID)
+	if p.counters[key] == 0 {
+		p.counters[key] = 1
+		P := c.IntC(co.P)
+		p.axiom("point-coord-range", c.And(c.Ge(x, c.IntC64(0)), c.Lt(x, P), c.Ge(y, c.IntC64(0)), c.Lt(y, P)))
+		if co.name == "secp256k1" {
+			// no finite point of secp256k1 has x = 0 and y = 0 (0 is not a cube-free root: y^2 = 7)
+			p.axiom("point-not-origin", c.Not(c.And(c.Eq(x, c.IntC64(0)), c.Eq(y, c.IntC64(0)))))
+		}
+	}
+	return
+}
+
+// mkPoint returns coordinate values (as *big.Int objects) for the group element (d, tau).
+func (p *pathRun) mkPoint(fr *frame, co *curveObj, d, tau *smt.Term) (value, value) {
+	c := p.ctx
+	if d.IsConst() && tau.IsConst() {
+		if d.Val.Sign() == 0 && tau.Val.Sign() == 0 {
+			if co.name == "secp256k1" {
+				return newBigC(big.NewInt(0)), newBigC(big.NewInt(0))
+			}
+			return newBigC(big.NewInt(0)), newBigC(big.NewInt(1))
+		}
+		if tau.Val.Sign() == 0 {
+			x, y := co.real.ScalarBaseMult(d.Val.Bytes())
+			p.regConcPt(co, x, y, d, tau)
+			return newBigC(x), newBigC(y)
+		}
+	}
+	// identity is a fork (secp: the coordinates are the non-point (0,0))
+	dz := c.Eq(d, c.IntC64(0))
+	if d.Op == "mod" && d.Args[1].IsConst() {
+		// d is a canonical residue: d = 0 iff its argument is ≡ 0 (normalised, with the
+		// zero-divisor lemma for the prime group order)
+		cg := p.congruent(d, c.IntC64(0), d.Args[1])
+		p.axiom("residue-zero", c.Eq(dz, cg))
+		dz = cg
+	}
+	isId := c.And(dz, c.Eq(tau, c.IntC64(0)))
+	if p.fork(isId, "point is identity") {
+		if co.name == "secp256k1" {
+			return newBigC(big.NewInt(0)), newBigC(big.NewInt(0))
+		}
+		return newBigC(big.NewInt(0)), newBigC(big.NewInt(1))
+	}
+	x, y := p.coordTerms(co, d, tau)
+	return p.newBig(x), p.newBig(y)
+}
+
+// pointOf recovers (d, tau) for coordinate values. ok=false: not known to be on the curve.
+func (p *pathRun) pointOf(fr *frame, co *curveObj, xv, yv bigval) (d, tau *smt.Term, ok bool) {
+	c := p.ctx
+	zero := c.IntC64(0)
+	if xv.c != nil && yv.c != nil {
+		// concrete coordinates
+		if co.name == "secp256k1" && xv.c.Sign() == 0 && yv.c.Sign() == 0 {
+			return zero, zero, true
+		}
+		if co.name == "ed25519" && xv.c.Sign() == 0 && yv.c.Cmp(big.NewInt(1)) == 0 {
+			return zero, zero, true
+		}
+		rp := co.real.Params()
+		if xv.c.Cmp(rp.Gx) == 0 && yv.c.Cmp(rp.Gy) == 0 {
+			return c.IntC64(1), zero, true
+		}
+		if xv.c.Sign() < 0 || yv.c.Sign() < 0 || !co.real.IsOnCurve(xv.c, yv.c) {
+			return nil, nil, false
+		}
+		key := fmt.Sprintf("cpt:%s:%s:%s", co.name, xv.c.String(), yv.c.String())
+		if v, ok := p.ghost[key]; ok {
+			pr := v.(*pointRec)
+			return pr.d, pr.tau, true
+		}
+		dl := c.Fresh("dlog", smt.Int)
+		tl := zero
+		rng := []*smt.Term{c.Ge(dl, zero), c.Lt(dl, c.IntC(co.N))}
+		if co.cof > 1 {
+			tl = c.Fresh("tors", smt.Int)
+			rng = append(rng, c.Ge(tl, zero), c.Lt(tl, c.IntC64(co.cof)))
+		}
+		x, y := p.coordTerms(co, dl, tl)
+		p.axiom("concrete-point-dlog", c.And(append(rng, c.Eq(x, c.IntC(xv.c)), c.Eq(y, c.IntC(yv.c)))...))
+		p.ghost[key] = &pointRec{co.name, x, y, dl, tl}
+		p.regConcPt(co, xv.c, yv.c, dl, tl)
+		return dl, tl, true
+	}
+	xt, yt := p.bt(xv), p.bt(yv)
+	if xt.Op == "app" && yt.Op == "app" && xt.Name == "X_"+co.name && yt.Name == "Y_"+co.name &&
+		xt.Args[0] == yt.Args[0] && xt.Args[1] == yt.Args[1] {
+		return xt.Args[0], xt.Args[1], true
+	}
+	for _, pr := range p.points {
+		if pr.curve == co.name && pr.x == xt && pr.y == yt {
+			return pr.d, pr.tau, true
+		}
+	}
+	return nil, nil, false
+}
+
+func curveIsOnCurve(fr *frame, a []value) value {
+	p := fr.i.p
+	c := p.ctx
+	co := fr.i.p.curveOf(a[0])
+	xp, yp := a[1].(*value), a[2].(*value)
+	xv, yv := p.bigAt(fr, a[1]), p.bigAt(fr, a[2])
+	if xv.c != nil && yv.c != nil {
+		if xv.c.Sign() < 0 || yv.c.Sign() < 0 {
+			// btcec accepts negative coordinates whose absolute value is on the curve:
+			// excluded from the model (DESIGN §3.4)
+			panic(unsupported("IsOnCurve with negative concrete coordinate"))
+		}
+		return co.real.IsOnCurve(xv.c, yv.c)
+	}
+	if _, _, ok := p.pointOf(fr, co, xv, yv); ok {
+		// structurally a curve point; the secp identity (0,0) is a concrete pair handled above
+		return true
+	}
+	xt, yt := p.bt(xv), p.bt(yv)
+	// negative coordinates are outside the model
+	if p.fork(c.Or(c.Lt(xt, c.IntC64(0)), c.Lt(yt, c.IntC64(0))), "IsOnCurve negative coordinate") {
+		panic(unsupported("IsOnCurve with negative symbolic coordinate"))
+	}
+	on := c.App("OnCurve_"+co.name, smt.Bool, xt, yt)
+	P := c.IntC(co.P)
+	// coordinates >= P are rejected by both libraries
+	p.axiom("oncurve-range", c.Implies(on, c.And(c.Lt(xt, P), c.Lt(yt, P))))
+	if co.name == "secp256k1" {
+		p.axiom("oncurve-origin", c.Implies(on, c.Not(c.And(c.Eq(xt, c.IntC64(0)), c.Eq(yt, c.IntC64(0))))))
+	}
+	if !p.fork(on, "IsOnCurve") {
+		return false
+	}
+	// on the curve: every curve point is a group element (d, tau)
+	zero := c.IntC64(0)
+	d := c.Fresh("dlog", smt.Int)
+	tau := zero
+	rng := []*smt.Term{c.Ge(d, zero), c.Lt(d, c.IntC(co.N))}
+	if co.cof > 1 {
+		tau = c.Fresh("tors", smt.Int)
+		rng = append(rng, c.Ge(tau, zero), c.Lt(tau, c.IntC64(co.cof)))
+	} else {
+		rng = append(rng, c.Gt(d, zero))
+	}
+	var X, Y *smt.Term
+	if co.cof > 1 {
+		// the identity (0,1) has concrete coordinates; keep d,tau possibly zero but tie coordinates
+		X, Y = p.coordTerms(co, d, tau)
+		isId := c.And(c.Eq(d, zero), c.Eq(tau, zero))
+		p.axiom("ed-identity-coords", c.Implies(isId, c.And(c.Eq(X, zero), c.Eq(Y, c.IntC64(1)))))
+	} else {
+		X, Y = p.coordTerms(co, d, tau)
+	}
+	p.axiom("oncurve-dlog", c.And(append(rng, c.Eq(xt, X), c.Eq(yt, Y))...))
+	// re-express the caller's coordinate objects structurally (same values under the path condition)
+	*xp = bigval{t: X}
+	*yp = bigval{t: Y}
+	p.points = append(p.points, &pointRec{co.name, xt, yt, d, tau})
+	return true
+}
+
+func (p *pathRun) havocPoint(co *curveObj) (value, value) {
+	c := p.ctx
+	x := c.Fresh("offcurve_x", smt.Int)
+	y := c.Fresh("offcurve_y", smt.Int)
+	P := c.IntC(co.P)
+	p.axiom("havoc-point-range", c.And(c.Ge(x, c.IntC64(0)), c.Lt(x, P), c.Ge(y, c.IntC64(0)), c.Lt(y, P)))
+	return p.newBig(x), p.newBig(y)
+}
+
+func curveAdd(fr *frame, a []value) value {
+	p := fr.i.p
+	c := p.ctx
+	co := fr.i.p.curveOf(a[0])
+	x1, y1, x2, y2 := p.bigAt(fr, a[1]), p.bigAt(fr, a[2]), p.bigAt(fr, a[3]), p.bigAt(fr, a[4])
+	if x1.c != nil && y1.c != nil && x2.c != nil && y2.c != nil {
+		x, y := co.real.Add(x1.c, y1.c, x2.c, y2.c)
+		return tuple{newBigC(x), newBigC(y)}
+	}
+	d1, t1, ok1 := p.pointOf(fr, co, x1, y1)
+	d2, t2, ok2 := p.pointOf(fr, co, x2, y2)
+	if !ok1 || !ok2 {
+		x, y := p.havocPoint(co)
+		return tuple{x, y}
+	}
+	d := c.Mod(c.Add(d1, d2), c.IntC(co.N))
+	tau := c.IntC64(0)
+	if co.cof > 1 {
+		tau = c.Mod(c.Add(t1, t2), c.IntC64(co.cof))
+	}
+	x, y := p.mkPoint(fr, co, d, tau)
+	return tuple{x, y}
+}
+
+// scalarOf returns the integer value of a big-endian scalar byte string.
+func (p *pathRun) scalarOf(fr *frame, k value) *smt.Term {
+	return p.bt(p.fromBytes(fr, k))
+}
+
+func curveScalarMult(fr *frame, a []value) value {
+	p := fr.i.p
+	c := p.ctx
+	co := fr.i.p.curveOf(a[0])
+	x1, y1 := p.bigAt(fr, a[1]), p.bigAt(fr, a[2])
+	k := p.scalarOf(fr, a[3])
+	if x1.c != nil && y1.c != nil && k.IsConst() {
+		x, y := co.real.ScalarMult(x1.c, y1.c, k.Val.Bytes())
+		return tuple{newBigC(x), newBigC(y)}
+	}
+	d1, t1, ok := p.pointOf(fr, co, x1, y1)
+	if !ok {
+		x, y := p.havocPoint(co)
+		return tuple{x, y}
+	}
+	d := c.Mod(c.Mul(d1, k), c.IntC(co.N))
+	tau := c.IntC64(0)
+	if co.cof > 1 {
+		tau = c.Mod(c.Mul(t1, k), c.IntC64(co.cof))
+	}
+	x, y := p.mkPoint(fr, co, d, tau)
+	return tuple{x, y}
+}
+
+func curveScalarBaseMult(fr *frame, a []value) value {
+	p := fr.i.p
+	c := p.ctx
+	co := fr.i.p.curveOf(a[0])
+	k := p.scalarOf(fr, a[1])
+	if k.IsConst() {
+		x, y := co.real.ScalarBaseMult(k.Val.Bytes())
+		p.regConcPt(co, x, y, c.IntC(new(big.Int).Mod(k.Val, co.N)), c.IntC64(0))
+		return tuple{newBigC(x), newBigC(y)}
+	}
+	d := c.Mod(k, c.IntC(co.N))
+	x, y := p.mkPoint(fr, co, d, c.IntC64(0))
+	return tuple{x, y}
+}
+
+// pointEqLemma adds, for two coordinate terms being compared, the injectivity
+// facts of the coordinate functions (lazily, at comparison sites).
+func (p *pathRun) pointEqLemma(a, b *smt.Term) {
+	if a.IsConst() && b.Op == "app" {
+		a, b = b, a
+	}
+	if a.Op == "app" && b.IsConst() && len(a.Args) == 2 && len(a.Name) > 2 && (a.Name[:2] == "X_" || a.Name[:2] == "Y_") {
+		p.pointConstLemma(a, b)
+		return
+	}
+	if a.Op != "app" || b.Op != "app" || a.Name != b.Name || len(a.Args) != 2 {
+		return
+	}
+	var cname string
+	var isX bool
+	switch {
+	case len(a.Name) > 2 && a.Name[:2] == "X_":
+		cname, isX = a.Name[2:], true
+	case len(a.Name) > 2 && a.Name[:2] == "Y_":
+		cname = a.Name[2:]
+	default:
+		return
+	}
+	key := fmt.Sprintf("peq:%s:%d:%d", a.Name, a.ID, b.ID)
+	if p.counters[key] > 0 {
+		return
+	}
+	p.counters[key] = 1
+	c := p.ctx
+	d1, t1, d2, t2 := a.Args[0], a.Args[1], b.Args[0], b.Args[1]
+	X1 := c.App("X_"+cname, smt.Int, d1, t1)
+	Y1 := c.App("Y_"+cname, smt.Int, d1, t1)
+	X2 := c.App("X_"+cname, smt.Int, d2, t2)
+	Y2 := c.App("Y_"+cname, smt.Int, d2, t2)
+	same := c.And(p.smartEq(d1, d2), c.Eq(t1, t2))
+	p.axiom("point-injective", c.Eq(c.And(c.Eq(X1, X2), c.Eq(Y1, Y2)), same))
+	if cname == "secp256k1" {
+		N := c.IntC(btcec.S256().Params().N)
+		neg := p.congruent(c.Add(d1, d2), c.IntC64(0), N)
+		if isX {
+			p.axiom("point-x-pm", c.Eq(c.Eq(X1, X2), c.Or(same, neg)))
+		}
+		// opposite points have different y (y = 0 is not on the curve)
+		p.axiom("point-y-neg", c.Implies(c.And(neg, c.Not(same)), c.Not(c.Eq(Y1, Y2))))
+	}
+}
+
+// concPt is a point with concrete coordinates whose group element is known
+// (or named by a fresh discrete-log constant).
+type concPt struct {
+	curve  string
+	x, y   *big.Int
+	d, tau *smt.Term
+}
+
+func (p *pathRun) regConcPt(co *curveObj, x, y *big.Int, d, tau *smt.Term) {
+	for _, q := range p.concPts {
+		if q.curve == co.name && q.x.Cmp(x) == 0 && q.y.Cmp(y) == 0 {
+			return
+		}
+	}
+	p.concPts = append(p.concPts, concPt{co.name, x, y, d, tau})
+}
+
+// pointConstLemma: a symbolic coordinate X_c(d,tau) (or Y_c) is compared with a
+// numeral. For every concrete point known on this path that has this
+// coordinate value: both coordinates coincide iff the group elements coincide.
+func (p *pathRun) pointConstLemma(a, k *smt.Term) {
+	c := p.ctx
+	cname := a.Name[2:]
+	isX := a.Name[:2] == "X_"
+	d1, t1 := a.Args[0], a.Args[1]
+	// identities and generators are always known
+	var co *curveObj
+	for _, cc := range p.curveTab {
+		if cc.name == cname {
+			co = cc
+		}
+	}
+	if co == nil {
+		return
+	}
+	rp := co.real.Params()
+	if cname == "secp256k1" {
+		p.regConcPt(co, big.NewInt(0), big.NewInt(0), c.IntC64(0), c.IntC64(0))
+	} else {
+		p.regConcPt(co, big.NewInt(0), big.NewInt(1), c.IntC64(0), c.IntC64(0))
+	}
+	p.regConcPt(co, rp.Gx, rp.Gy, c.IntC64(1), c.IntC64(0))
+	X1 := c.App("X_"+cname, smt.Int, d1, t1)
+	Y1 := c.App("Y_"+cname, smt.Int, d1, t1)
+	for _, q := range p.concPts {
+		if q.curve != cname {
+			continue
+		}
+		if isX && q.x.Cmp(k.Val) != 0 || !isX && q.y.Cmp(k.Val) != 0 {
+			continue
+		}
+		key := fmt.Sprintf("pcl:%s:%d:%d:%s:%s", cname, d1.ID, t1.ID, q.x.String(), q.y.String())
+		if p.counters[key] > 0 {
+			continue
+		}
+		p.counters[key] = 1
+		same := c.And(p.smartEq(d1, q.d), c.Eq(t1, q.tau))
+		p.axiom("point-injective-const", c.Eq(c.And(c.Eq(X1, c.IntC(q.x)), c.Eq(Y1, c.IntC(q.y))), same))
+	}
 }
